@@ -133,7 +133,9 @@ def check_tuple(kind, args, backend, precision, shard, broadcast=False):
     def judge(monitor, got, ref, abs_budget=None, rel_budget=None, mech_extra="", log_ref=None):
         if log_ref is not None and rel_budget is not None and rel_budget > 0.05:
             # non-log variant with a large log-space budget: an error d in the log is a factor e^d
-            if got > 0 and ref > 0:
+            if got > 0 and ref > 0 and max(mp.mpf(got), ref) <= floor:
+                ok = True  # both in (or next to) the subnormal range: no relative precision is promised there
+            elif got > 0 and ref > 0:
                 err = abs(mp.log(mp.mpf(got)) - log_ref)
                 ok = err <= rel_budget
             else:
